@@ -135,14 +135,16 @@ def from_update_case(c14, case):
     return shapes, kwargs
 
 
-def at_tie(ctx, n, calls=(), arange_dtype="int32", prefix="at"):
-    """`calls`: further (op, description, shapes, kwargs) produced by the caller's generator."""
+def at_tie(ctx, n, calls=(), arange_dtype="int32", prefix="at", only=None):
+    """`calls`: further (op, description, shapes, kwargs) produced by the caller's generator; `only`: restrict the hand-written
+    calls to one family ("get_at" | "update"); `arange_dtype=None`: no dtype comparison."""
     drv = ctx.driver()
     rng = random.Random(f"at_tie:{ctx.seed}")
-    todo = list(EXTRA) + list(calls)
+    extra = [c for c in EXTRA if only is None or (c[0] == "get_at") == (only == "get_at")]
+    todo = extra + list(calls)
     done = 0
     for op, desc, shapes, kwargs in todo:
-        if done >= n + len(EXTRA):
+        if done >= n + len(extra):
             break
         fam = "get_at" if op == "get_at" else "update"
         where = f"einx.{op}({desc!r}) shapes={shapes} kwargs={kwargs}"
@@ -212,7 +214,7 @@ def at_tie(ctx, n, calls=(), arange_dtype="int32", prefix="at"):
             ctx.count(f"{prefix}:int8-trace-raises-" + type(ex).__name__)
         for d in sorted(dts, key=str):
             ctx.count(f"{prefix}:arange-dtype:{d}")
-            if d != arange_dtype:
+            if arange_dtype is not None and d != arange_dtype:
                 ctx.tie_broken(f"correspondence:{prefix}-arange-dtype",
                                f"{where}: np.arange is traced with dtype={d!r}, the extracted index dtype is {arange_dtype!r}")
     ctx.extra[f"{prefix}_descriptions"] = done
